@@ -406,11 +406,22 @@ def run_errors(ctx):
         (['-infty', '5/2', '2^n', 'n'], 'StudentFacing', 'noninteger_limit_with_infinite_partner'),
         (['infty', '0.5', '1/2^n', 'n'], 'StudentFacing', 'noninteger_limit_with_infinite_partner'),
         (['i', 'infty', '1/2^n', 'n'], 'StudentFacing', 'complex_limit'),
+        # complex-TYPED limits are refused whatever their imaginary part (documented: "limits must be real")
+        (['1', '5+0*i', 'n^2', 'n'], 'StudentFacing', 'complex_limit'), (['i^2+2', '5', 'n^2', 'n'], 'StudentFacing', 'complex_limit'),
+        (['1', '-(2*i)^2+1', 'n^2', 'n'], 'StudentFacing', 'complex_limit'), (['i^4', '5', 'n^2', 'n'], 'StudentFacing', 'complex_limit'),
         # almost-integers are not integers (and must not be silently truncated)
         (['1', '4.9999999999', 'n^2', 'n'], 'StudentFacing', 'noninteger_limit'), (['1', '(0.1+0.7)*10-3', 'n^2', 'n'], 'StudentFacing', 'noninteger_limit'),
         (['1.0000000001', '5', 'n^2', 'n'], 'StudentFacing', 'noninteger_limit'), (['0.3/0.1-2', '5', 'n^2', 'n'], 'StudentFacing', 'noninteger_limit'),
     ]
     for i in range(ctx.pick(2, 10)):
+        # another sum in the course took default constants away for itself (user_constants={'i': None}): there i is free as a
+        # summation variable; every other SumGrader, built before or after, keeps all default constants reserved
+        freed = SumGrader(answers={'lower': '1', 'upper': '5', 'summand': 'n^2', 'summation_variable': 'n'}, user_constants={'i': None, 'e': None}, samples=2, tolerance=1e-9)
+        out = lib.call(ctx, freed, None, ['1', '5', 'i^2', 'i'])
+        ctx.ev()
+        ctx.count('freed_constant_cases')
+        if not out.returned or out.value['ok'] is not True:
+            ctx.violation('C19:removed_constant_not_usable_as_summation_variable', repr(out.brief()), {'user_constants': {'i': None, 'e': None}, 'submission': ['1', '5', 'i^2', 'i']})
         for sub, fam, kind in cases:
             g = SumGrader(**dict(base, sample_from={'x': lib.Scripted(values=[2.0, 2.0]), 'secret': lib.Scripted(values=[7.0, 7.0])}))
             out = lib.call(ctx, g, None, list(sub))
